@@ -50,6 +50,13 @@ API
 ``build_template(thermo, rtol=1e-6, atol=1e-10)`` -> WallGo.HydrodynamicsTemplateModel
 ``st_tolerances()``                    strategy over the two (rtol, atol) settings of DESIGN C02
 ``spec_hash(spec)``                    short stable hash (for labels / caches)
+``VCLASSES`` / ``velocity(vclass, u, vmin, cb, vJ)``
+                                       wall-velocity classes with explicit mass at the landmarks (v_min,
+                                       v_min + 1e-3.., c_b -+ 1e-6..1e-3, v_J - 1e-6..1e-2, v_J + 1e-4..1e-2, 0.99)
+                                       and the interiors of the three branches; u in [0,1] is the position
+                                       inside the class; landmarks are the solver's own (hydro.vMin,
+                                       sqrt(csqLowT(Tn)), hydro.vJ), so the case stays plain data
+``branch_of(vw, vp, vm)``, ``speed_bucket(vw)``  labels derived from a returned matching
 
 All randomness is Hypothesis'; ``build`` is a pure function of the spec.
 """
@@ -502,6 +509,54 @@ def build_template(thermo, rtol=1e-6, atol=1e-10):
 
 
 # ---------------------------------------------------------------------------------------------
+# wall-velocity classes
+# ---------------------------------------------------------------------------------------------
+VCLASSES = ("vmin", "vmin+", "defl", "cb-", "cb+", "hyb", "vJ-", "vJ+", "det", "v099")
+
+
+def velocity(vclass, u, vmin, cb, vJ):
+    """Concrete wall velocity for a class; landmarks are the solver's own."""
+    lo = max(vmin, 1e-3)
+    top = min(cb, vJ)
+    if vclass == "vmin":
+        vw = lo
+    elif vclass == "vmin+":
+        vw = lo + 10.0 ** (-3.0 + 2.0 * u)
+    elif vclass == "defl":
+        vw = lo + 1e-3 + u * max(top - lo - 2e-3, 0.0)
+    elif vclass == "cb-":
+        vw = cb - 10.0 ** (-6.0 + 3.0 * u)
+    elif vclass == "cb+":
+        vw = cb + 10.0 ** (-6.0 + 3.0 * u)
+    elif vclass == "hyb":
+        vw = cb + u * (vJ - cb) if vJ > cb else vJ - 1e-3 * u
+    elif vclass == "vJ-":
+        vw = vJ - 10.0 ** (-6.0 + 4.0 * u)
+    elif vclass == "vJ+":
+        vw = vJ + 10.0 ** (-4.0 + 2.0 * u)
+    elif vclass == "det":
+        vw = vJ + 1e-4 + u * max(0.99 - vJ - 1e-4, 0.0)
+    elif vclass == "v099":
+        vw = 0.99
+    else:
+        raise ZooError(f"unknown velocity class {vclass}")
+    return min(max(vw, lo), 0.99)
+
+
+def branch_of(vw, vp, vm):
+    """Branch label of a returned matching (classification proper is C06's subject)."""
+    if vp == vw:
+        return "detonation"
+    if vm == vw:
+        return "deflagration"
+    return "hybrid"
+
+
+def speed_bucket(vw):
+    return "vw<0.01" if vw < 0.01 else "vw<0.1" if vw < 0.1 else "vw>=0.1"
+
+
+# ---------------------------------------------------------------------------------------------
 # strategies
 # ---------------------------------------------------------------------------------------------
 def _f(lo, hi):
@@ -584,10 +639,10 @@ def st_cubic(draw, decades=(-2.0, 3.0), family="cubic"):
         # range, tracePhase (paranoid re-minimisation) silently continues in the symmetric minimum and the
         # tabulated "low-T phase" has a jump.  Keep T1 >= 1.45 Tn by construction:
         # T1/T0 = 1/sqrt(1-q), Tc/T0 = 1/sqrt(1-8q/9), Tn/T0 = 1 + y (Tc/T0 - 1).
-        q = draw(_f(0.55, 0.9))
+        q = draw(_f(0.62, 0.9))
         r1, rc = 1.0 / math.sqrt(1.0 - q), 1.0 / math.sqrt(1.0 - 8.0 * q / 9.0)
-        ymax = min(0.95, (r1 / 1.45 - 1.0) / (rc - 1.0))
-        y = ymax * draw(_f(0.15, 1.0))
+        ymax = min(0.95, (r1 / 1.45 - 1.0) / (rc - 1.0))      # >= 0.22 for q >= 0.62
+        y = max(0.1, ymax * draw(_f(0.15, 1.0)))               # Tn not too close to T0 either
     else:
         # A^2 = q * 4 lam g with q < 0.85 keeps Tc and the spinodal T1 at finite distance
         q = draw(_f(0.05, 0.85))
